@@ -89,11 +89,15 @@ class CreatedFiles:
             self._norm_cased_dir_to_started_count[parent] = count
             return
 
+        # Remove the parent directories that no longer contain any created
+        # files or files we have started building
         self._norm_cased_dir_to_started_count.pop(parent)
-        self._norm_cased_dirs.remove(parent)
-        while self._remove_from_subfiles(parent):
-            parent = os.path.dirname(parent)
+        while (parent not in self._norm_cased_dir_to_subfiles and
+                parent not in self._norm_cased_dir_to_started_count):
             self._norm_cased_dirs.remove(parent)
+            if not self._remove_from_subfiles(parent):
+                break
+            parent = os.path.dirname(parent)
 
     def has_norm_cased_file(self, norm_cased_filename):
         """Return whether we created a regular file with the given filename.
